@@ -4,10 +4,11 @@ allowed observation of the same exported scenario."""
 from harness import core
 from props import ops1_common as oc
 from props import ops1_ext as ox
+from props import diff_common
 
 META = {
     "technique": "each TLC-exported Ops1.tla scenario replayed through both call forms (fluent method and piped operator) against the same allowed set; method table introspected at run time",
-    "level": "For every fluent method whose operator has a model in Ops1.tla (element-wise, aggregate, slicing) every enumerated scenario - with arguments chosen by TLC so that every parameter takes non-default values and positions are distinguishable (tables, counts, defaults, comparers) - is run through both forms on the same virtual-time timeline; both must match the model's expected observation, so a method that drops, reorders or re-defaults an argument is a mismatch and a method that rejects the operator's arguments is reported as a signature failure. Methods whose operator is modelled elsewhere are compared by those modules; methods with no model are listed in the evidence as uncovered, not as held.",
+    "level": "For every fluent method whose operator has a model in Ops1.tla (element-wise, aggregate, slicing) every enumerated scenario - with arguments chosen by TLC so that every parameter takes non-default values and positions are distinguishable (tables, counts, defaults, comparers) - is run through both forms on the same virtual-time timeline; both must match the model's expected observation, so a method that drops, reorders or re-defaults an argument is a mismatch and a method that rejects the operator's arguments is reported as a signature failure. In addition every fluent method that has a catalogue entry (126 of them) is compared differentially: the same seeded scenario (generic arguments, logged sources) is run through both forms, both executions are validated by TLC against the Lifecycle.tla monitor and their event sequences (kinds, virtual times, element renderings, user-function invocations, source subscription intervals) must be identical - this part is differential in nature and counted separately in the evidence. Methods compared neither way are listed as uncovered, not as held.",
     "note": "TLC 1.8; methods are discovered by introspection of reactivex.Observable",
     "ref": "DESIGN.md 6 C39",
 }
@@ -42,16 +43,31 @@ def run(tier):
         if c.vals is not None:
             covered.add(oc.build(scn["op"], scn["par"], c)[0])
     covered &= set(methods)
+    # differential part: every catalogue operator that exists as a method, same seeded scenario through both forms
+    df = diff_common.forms_pass(ck, ck.seed + 91, 4 if tier == "quick" else 40)
+    ck.note("differential_forms_pass", df)
     ck.rule = (f"every Ops1.tla scenario ({k} tokens, length 0..{n}; slices over length 0..3) through the fluent method and the piped "
                "operator; non-trivial = output differs from the input")
     ck.nontrivial = sum(1 for g in groups + sl if oc.nontrivial(*g))
     ck.note("fluent_methods_total", len(methods))
     ck.note("fluent_methods_compared_here", sorted(covered))
-    ck.note("fluent_methods_not_compared_here", sorted(set(methods) - covered))
+    ck.note("fluent_methods_not_compared_against_a_model", sorted(set(methods) - covered))
+    ck.note("fluent_methods_compared_neither_way", sorted(set(methods) - covered - set(df["methods_compared"])))
     for g in groups[:: max(1, len(groups) // 4)][:4]:
         ck.sample({"scn": g[0], "allowed": g[1], "forms": ["pipe", "fluent"]})
     ck.assumptions = ["a method is compared only if its operator has a model; the rest are listed as not compared"]
     return ck.finish()
 
 
-replay = ox.generic_replay
+def replay(rec):
+    if rec.get("engine") == "forms-diff":
+        import json
+        spec, out = diff_common._forms_job(rec["spec"])
+        p, f = out["pipe"], out["fluent"]
+        if p["trace"] is None or f["trace"] is None:
+            print("replay:", p.get("skip"), f.get("skip"))
+            return 1 if f["trace"] is None and p["trace"] is not None else 2
+        d = diff_common._first_diff(diff_common._proj(p["trace"]["ev"]), diff_common._proj(f["trace"]["ev"]))
+        print("replay:", d or "the two forms behave identically")
+        return 1 if d else 0
+    return ox.generic_replay(rec)
